@@ -360,7 +360,7 @@ func parentMain(p *Prop, tier string, seed int64) int {
 	var evals, inconcl, nviol int64
 	counters := map[string]int64{}
 	inconclWhy := map[string]int64{}
-	distinct := map[uint64]struct{}{}
+	var allDistinct []uint64 // union by sort + unique (8 bytes per hash instead of a map entry)
 	var samples []any
 	perKindSamples := map[string]int{}
 	var viols []Violation
@@ -397,9 +397,8 @@ func parentMain(p *Prop, tier string, seed int64) int {
 				}
 			}
 			viols = append(viols, o.res.Violations...)
-			for _, h := range o.dist {
-				distinct[h] = struct{}{}
-			}
+			allDistinct = append(allDistinct, o.dist...)
+			o.dist = nil
 		}
 		if o.res != nil {
 			// the child completed its case list (exit 66 = race reports, counted from the logs below)
@@ -429,6 +428,14 @@ func parentMain(p *Prop, tier string, seed int64) int {
 		viols = append(viols, Violation{Class: cls, Kind: kind, CaseSeed: cs,
 			Detail: fmt.Sprintf("child %d exited %d while running %s; log tail:\n%s", i, o.exit, cur, tail)})
 	}
+	sort.Slice(allDistinct, func(i, j int) bool { return allDistinct[i] < allDistinct[j] })
+	nDistinct := 0
+	for i, h := range allDistinct {
+		if i == 0 || h != allDistinct[i-1] {
+			nDistinct++
+		}
+	}
+	allDistinct = nil
 	// race reports
 	raceBlocks := 0
 	raceDistinct := map[string]string{}
@@ -508,7 +515,7 @@ func parentMain(p *Prop, tier string, seed int64) int {
 		}
 	}
 	lostTooMany := evals > 0 && inconcl*20 > evals+inconcl
-	incon := len(floorMiss) > 0 || watchdogs > 0 || lostTooMany || evals == 0 || len(distinct) < 2
+	incon := len(floorMiss) > 0 || watchdogs > 0 || lostTooMany || evals == 0 || nDistinct < 2
 
 	// evidence
 	level := p.Level
@@ -520,7 +527,7 @@ func parentMain(p *Prop, tier string, seed int64) int {
 	}
 	cov := map[string]any{
 		"evaluations":         evals,
-		"distinct_nontrivial": len(distinct),
+		"distinct_nontrivial": nDistinct,
 		"rule":                p.Rule,
 		"samples":             samples,
 		"counters":            counters,
@@ -566,7 +573,7 @@ func parentMain(p *Prop, tier string, seed int64) int {
 		fmt.Fprintf(&sb, " %s=%d", k, counters[k])
 	}
 	fmt.Printf("%s %s seed=%d: %s; evaluations=%d distinct_nontrivial=%d inconclusive_cases=%d wall=%.1fs\n  observed:%s\n",
-		p.ID, tier, seed, verdict, evals, len(distinct), inconcl, time.Since(t0).Seconds(), sb.String())
+		p.ID, tier, seed, verdict, evals, nDistinct, inconcl, time.Since(t0).Seconds(), sb.String())
 	if unknownViol > 0 {
 		return 1
 	}
